@@ -70,6 +70,7 @@ def c2http_summary(h):
             freeze(h.get_uris), h.submit_uri, h.get_verb, h.submit_verb, freeze(h.aes_key), freeze(h.hmac_key))
 
 
+THOROUGH = False
 KEY = bytes(range(16))
 HKEY = bytes(range(16, 32))
 
@@ -187,9 +188,10 @@ def h_history(names, family):
             s1 = snapshot(cfg)
             ctx.prove(deep_eq(s0, s1), "configuration unchanged after %s (history %s)" % (name, " ; ".join(names[:k + 1])))
             ctx.prove(deep_eq(res, refs[k]), "%s gives the same result as on a fresh configuration (history %s)" % (name, " ; ".join(names[:k + 1])))
-            fresh = call(BeaconConfig, block)
-            ref = OPS[name](fresh)
-            ctx.prove(deep_eq(ref, refs[k]), "%s on a fresh configuration gives the same result before and after the history (%s)" % (name, " ; ".join(names[:k + 1])))
+            if THOROUGH:
+                fresh = call(BeaconConfig, block)
+                ref = OPS[name](fresh)
+                ctx.prove(deep_eq(ref, refs[k]), "%s on a fresh configuration gives the same result before and after the history (%s)" % (name, " ; ".join(names[:k + 1])))
     return body
 
 
@@ -214,7 +216,9 @@ def h_mutation():
 
 
 def instances(tier):
+    global THOROUGH
     q = tier == "quick"
+    THOROUGH = not q
     out = []
     names = list(OPS)
     for n in names:
